@@ -1601,7 +1601,12 @@ class C05(Prop):
             for i in range(len(case["masses"])):
                 yield {**case, "masses": case["masses"][:i] + case["masses"][i + 1:], "scalar": False}
         for i, s in enumerate(sp):
-            for j in range(len(s["mz"])):
+            n = len(s["mz"])
+            if n > 8:  # long spectra: halves and quarters before single peaks
+                for a, b in ((0, n // 2), (n // 2, n), (0, n // 4), (n // 4, n // 2), (n // 2, 3 * n // 4), (3 * n // 4, n)):
+                    t = {**s, "mz": s["mz"][:a] + s["mz"][b:], "it": s["it"][:a] + s["it"][b:]}
+                    yield {**case, "spectra": sp[:i] + [t] + sp[i + 1:], "shared": False}
+            for j in range(n if n <= 64 else 0):
                 if len(s["mz"]) > 1:
                     t = {**s, "mz": s["mz"][:j] + s["mz"][j + 1:], "it": s["it"][:j] + s["it"][j + 1:]}
                     yield {**case, "spectra": sp[:i] + [t] + sp[i + 1:], "shared": False}
